@@ -422,7 +422,29 @@ class WorldGen:
             L.append("prov|s%d.%d" % (m_id, o))
             L.append("prov|o%d" % o)
 
-        scen = [(scen_layout_super, P.get("scen_layout_super", 0.02)), (scen_entry, P.get("scen_entry", 0.03)), (scen_multi, P.get("scen_multi", 0.06)), (scen_cold_super, P.get("scen_cold_super", 0.03)),
+        def scen_addspec():
+            """a class declares another class's specification (no interface of its own involved): registrations keyed by
+            the helper's specification start to apply to the class, its subclasses and instances"""
+            c = rnd.choice([k for k in cb if k not in layout])
+            h_id = max(cb) + 1
+            try:
+                pycls[h_id] = type("K%d" % h_id, (object,), {})
+            except TypeError:
+                return
+            cb[h_id] = []
+            inv_cls[pycls[h_id]] = h_id
+            r = rnd.randrange(st["nr"])
+            p, nm = rnd.choice(PROV), rnd.choice(NAMES)
+            v = val()
+            os2 = [o for o in objs if c in [inv_cls[z] for z in pycls[objs[o]].__mro__[:-1]]]
+            tok = "o%d" % rnd.choice(os2) if os2 and rnd.random() < 0.6 else "c%d" % c
+            q = rnd.choice(["lookup|%d|%s|%d|%s" % (r, tok, p, nm), "lookupAll|%d|%s|%d" % (r, tok, p), "lookup1|%d|%s|%d|%s" % (r, tok, p, nm)])
+            L.append("class|%d|" % h_id)
+            L.append("reg|%d|c%d|%d|%s|%d %d" % (r, h_id, p, nm, v[0], v[1]))
+            live.append(("reg", r, ("c%d" % h_id,), p, nm, v))
+            L.extend([q, "addspec|%d|%d" % (c, h_id), q, "prov|%s" % tok])
+
+        scen = [(scen_addspec, P.get("scen_addspec", 0.03)), (scen_layout_super, P.get("scen_layout_super", 0.02)), (scen_entry, P.get("scen_entry", 0.03)), (scen_multi, P.get("scen_multi", 0.06)), (scen_cold_super, P.get("scen_cold_super", 0.03)),
                 (scen_hit, P.get("scen_hit", 0.05)), (scen_rbases_spec, P.get("scen_rbases", 0.03)), (scen_rebuild, P.get("scen_rebuild", 0.03))]
         nsteps = rnd.randint(*(P.get("steps_big", (10, 40)) if big else P.get("steps", (6, 26))))
         W = P["weights"]       # reg unreg sub unsub isetbases classdecl objdecl rbases rebuild
